@@ -246,10 +246,10 @@ STATS = {}
 def generate(seed, tier):
     rng = random.Random(seed)
     cases = []
-    n_tr = 12000 if tier == "thorough" else 1500
+    n_tr = 40000 if tier == "thorough" else 1500
     for i in range(n_tr):
         cases.append(transform_case(rng, i))
-    n_wr = 12000 if tier == "thorough" else 1500
+    n_wr = 40000 if tier == "thorough" else 1500
     stats = {}
     for i in range(n_wr):
         cases.append(wrapper_case(rng, i, stats))
